@@ -220,8 +220,8 @@ def c17_total(F, R):
         R.bad("coverage", f"only {n} literal-parsing bodies were found")
 
 
-@rule("C13", "C13.f.no-narrowing-casts-on-literals", floor=3)
-@rule("C17", "C17.no-narrowing-casts", floor=3)
+@rule("C13", "C13.f.no-narrowing-casts-on-literals", floor=2)
+@rule("C17", "C17.no-narrowing-casts", floor=2)
 def c17_casts(F, R):
     """every integer cast applied while parsing a literal is same-width or widening (no silent truncation)"""
     n = 0
